@@ -70,6 +70,8 @@ func checkC08(p *Program, r *Result) {
 		importRule(p, r, "C08.o", func(sub *Result) { checkSummaryOffsetsComplete(p, sub, isSink) }, nil)
 	}
 	checkTimeFoldOnEveryPath(p, r, "C08.t")
+	r.rule("C08.k", "the summary pass consults the table of selected channels only under a test of the topic selection (Info lists every chunk)", 1)
+	checkSummaryKeepsChunks(p, r, "C08.k")
 	r.rule("C08.u", "Info is built from an iterator that restricts nothing", 1)
 	checkInfoFromUnrestrictedIterator(p, r, "C08.u")
 	r.rule("C08.h", "the cached Info is never filtered, sorted or appended to in place by a read (C03.h)", 1)
